@@ -584,15 +584,24 @@ def _rewrite_exitstack(body_list):
       still = any(isinstance(n, ast.Name) and n.id == s for x in inner for n in ast.walk(x))
       if lead and not still:
         new = inner or [ast.Pass()]
-        for x in reversed(lead):
+        for li, x in enumerate(reversed(lead)):
           c = x.value
           if c.func.attr == 'callback':
-            call = ast.Call(func=c.args[0], args=list(c.args[1:]), keywords=[])
+            # the callback's arguments are evaluated when it is registered, not when it runs
+            cargs = []
+            for ai, av in enumerate(c.args[1:]):
+              if isinstance(av, ast.Constant):
+                cargs.append(av)
+              else:
+                tmp = '__cb%d_%d_%d' % (getattr(st, 'lineno', 0), li, ai)
+                pre.append(ast.copy_location(ast.Assign(targets=[ast.Name(id=tmp, ctx=ast.Store())], value=av), st))
+                cargs.append(ast.Name(id=tmp, ctx=ast.Load()))
+            call = ast.Call(func=c.args[0], args=cargs, keywords=[])
             new = [ast.Try(body=new, handlers=[], orelse=[], finalbody=[ast.Expr(value=call)])]
           else:
             var = x.targets[0] if isinstance(x, ast.Assign) else None
             new = [ast.With(items=[ast.withitem(context_expr=c.args[0], optional_vars=var)], body=new)]
-        for n in new:
+        for n in new + pre:
           ast.copy_location(n, st)
           ast.fix_missing_locations(n)
         body_list[i:i + 1] = pre + new
@@ -1094,6 +1103,40 @@ def _thread_value(fn, body_list):
   return changed
 
 
+def _distribute_ifexp_call(fn, body_list):
+  """return (A if c else B)(args)   ->   if c: return A(args) else: return B(args)        (same for `x = ...` and bare calls)
+     _, _, x = S.rpartition(sep)     ->   x = S.rsplit(sep, 1)[-1]        (the other two parts unused);  x, _, _ = S.partition(sep) likewise"""
+  changed = 0
+  for i, st in enumerate(body_list):
+    v = getattr(st, 'value', None) if isinstance(st, (ast.Return, ast.Expr, ast.Assign)) else None
+    if isinstance(v, ast.Call) and isinstance(v.func, ast.IfExp) and all(_simple(x) for x in (v.func.body, v.func.orelse)):
+      a, b = copy.deepcopy(st), copy.deepcopy(st)
+      a.value.func = v.func.body
+      b.value.func = v.func.orelse
+      new = ast.If(test=v.func.test, body=[a], orelse=[b])
+      ast.copy_location(new, st)
+      ast.fix_missing_locations(new)
+      body_list[i] = new
+      changed += 1
+      continue
+    if isinstance(st, ast.Assign) and len(st.targets) == 1 and isinstance(st.targets[0], ast.Tuple) and len(st.targets[0].elts) == 3 \
+        and all(isinstance(e, ast.Name) for e in st.targets[0].elts) and isinstance(st.value, ast.Call) \
+        and isinstance(st.value.func, ast.Attribute) and st.value.func.attr in ('rpartition', 'partition') and len(st.value.args) == 1 and fn is not None:
+      t = st.targets[0].elts
+      rp = st.value.func.attr == 'rpartition'
+      keep, drop = (t[2], t[:2]) if rp else (t[0], t[1:])
+      if all(not _loads(fn, d.id) for d in drop) and keep.id not in {d.id for d in drop}:
+        call = ast.Call(func=ast.Attribute(value=st.value.func.value, attr='rsplit' if rp else 'split', ctx=ast.Load()),
+                        args=[st.value.args[0], ast.Constant(value=1)], keywords=[])
+        idx = ast.UnaryOp(op=ast.USub(), operand=ast.Constant(value=1)) if rp else ast.Constant(value=0)
+        new = ast.Assign(targets=[ast.Name(id=keep.id, ctx=ast.Store())], value=ast.Subscript(value=call, slice=idx, ctx=ast.Load()))
+        ast.copy_location(new, st)
+        ast.fix_missing_locations(new)
+        body_list[i] = new
+        changed += 1
+  return changed
+
+
 def _unroll_literal_loop(fn, body_list):
   """for v in (E1, E2): BODY   ->   BODY[v:=E1]; BODY[v:=E2]      (few simple elements, small straight-line body)"""
   changed = 0
@@ -1167,6 +1210,7 @@ def loop_forms(tree):
       c += _rewrite_for_genexp(fn, body, noret)
       c += _rewrite_pull_loop(fn, body)
       c += _unroll_literal_loop(fn, body)
+      c += _distribute_ifexp_call(fn, body)
     n += c
     if not c:
       break
@@ -1177,7 +1221,7 @@ def loop_forms(tree):
 # temporaries that do not exist on the reference tree
 
 
-_PURE_FUNCS = {'len', 'isinstance', 'issubclass', 'tuple', 'list', 'set', 'frozenset', 'bool', 'str', 'int', 'sorted', 'min', 'max',
+_PURE_FUNCS = {'map', 'filter', 'len', 'isinstance', 'issubclass', 'tuple', 'list', 'set', 'frozenset', 'bool', 'str', 'int', 'sorted', 'min', 'max',
                'any', 'all', 'type', 'repr', 'callable', 'hasattr', 'getattr', 'dict', 'enumerate', 'zip', 'range', 'reversed'}
 # methods of the repository's own immutable records (config_parser.ImportStatement is a NamedTuple) that only read fields;
 # rule C19.unique-names re-checks on every run that they still are side-effect free
@@ -1574,6 +1618,20 @@ class _ExprForms(ast.NodeTransformer):
       ast.fix_missing_locations(n)
     return n
 
+  def visit_Call(self, n):
+    self.generic_visit(n)
+    # all([a, b, c]) -> bool(a and b and c);  any((a, b)) -> bool(a or b)      (a literal display of pure operands)
+    if isinstance(n.func, ast.Name) and n.func.id in ('all', 'any') and len(n.args) == 1 and not n.keywords \
+        and isinstance(n.args[0], (ast.List, ast.Tuple)) and len(n.args[0].elts) >= 2 \
+        and not any(isinstance(x, ast.Starred) for x in n.args[0].elts) and all(_pure(x) for x in n.args[0].elts):
+      op = ast.And() if n.func.id == 'all' else ast.Or()
+      new = ast.Call(func=ast.Name(id='bool', ctx=ast.Load()), args=[ast.BoolOp(op=op, values=list(n.args[0].elts))], keywords=[])
+      ast.copy_location(new, n)
+      ast.fix_missing_locations(new)
+      self.n += 1
+      return new
+    return n
+
   def visit_Compare(self, n):
     self.generic_visit(n)
     # x in (*A, *B) / x in A + B   ->   x in A or x in B       (and the `not in` dual)
@@ -1603,6 +1661,20 @@ class _ExprForms(ast.NodeTransformer):
         self.n += 1
         return new
     return n
+
+
+def _never_none(ge):
+  """The generator expression yields its own loop variable, filtered by an isinstance test on it: never None."""
+  if len(ge.generators) != 1:
+    return False
+  gen = ge.generators[0]
+  if not (isinstance(gen.target, ast.Name) and isinstance(ge.elt, ast.Name) and ge.elt.id == gen.target.id):
+    return False
+  for c in gen.ifs:
+    if isinstance(c, ast.Call) and isinstance(c.func, ast.Name) and c.func.id == 'isinstance' and len(c.args) == 2 \
+        and ast.unparse(c.args[0]) == gen.target.id and ast.unparse(c.args[1]) not in ('object', 'type(None)'):
+      return True
+  return False
 
 
 def _rewrite_for_genexp(fn, body_list, noret=()):
@@ -1645,7 +1717,7 @@ def _rewrite_for_genexp(fn, body_list, noret=()):
       sdefs = [n for n in ast.walk(fn) if isinstance(n, ast.Assign) and len(n.targets) == 1 and ast.unparse(n.targets[0]) == S.id]
       if len(sdefs) != 1 or ast.unparse(sdefs[0].value) != 'object()':
         continue
-    elif not (isinstance(S, ast.Constant) and S.value is None and isinstance(ge.elt, ast.Tuple)):
+    elif not (isinstance(S, ast.Constant) and S.value is None and (isinstance(ge.elt, ast.Tuple) or _never_none(ge))):
       continue
     gens = ge.generators
     nested = len(gens) > 1
